@@ -125,6 +125,19 @@ Theorem srp_user_only_if_password_proof : forall O r s u,
   r_rec_ok r = true /\ fin_ok O FIN_C12 (r_tr_fin r) (r_fin r) = true.
 Proof. exact server12_srp. Qed.
 
+(* (7b) identities restored from a TLS <= 1.2 session ticket / the session cache (since /repo
+   19b1cb2 the ticket carries the SRP user name next to the client chain): they are attributed
+   to the connection only if the ticket decrypted under a current key (r_psk = Some _), the
+   record keys derived from the ticket's master secret opened the peer's flight and the peer's
+   Finished verified; an SRP user name in the ClientHello must equal the stored one *)
+Theorem srp_user_from_ticket_only_if_ticket_and_finished : forall O r s,
+  server12_resume O r = Ok (Some s) ->
+  (exists id, r_psk r = Some id) /\ r_rec_ok r = true /\
+  fin_ok O FIN_C12 (r_tr_fin r) (r_fin r) = true /\
+  s_srp_user s = r_ticket_srp r /\ s_client_chain s = r_ticket_chain r /\ s_server_chain s = None /\
+  (forall h, r_srp_user r = Some h -> r_ticket_srp r = Some h).
+Proof. exact server12_resume_identity. Qed.
+
 (* (8) PSK *)
 Theorem psk_identity_only_if_binder_and_finished : forall O r s id,
   server13 O r = Ok s -> s_psk s = Some id ->
